@@ -406,6 +406,20 @@ func MustLD(raw json.RawMessage, seed int) []byte {
 	return b
 }
 
+// MustLDFree is MustLD plus the positions the format leaves to the writer (the ECMA array's associative count,
+// which amf0_spec_121207 2.10 does not tie to the number of pairs and no accessor of the library shows).
+func MustLDFree(raw json.RawMessage, seed int) ([]byte, []bool) {
+	l, err := ld.Parse(raw)
+	if err != nil {
+		Broken("bad layout descriptor: %v", err)
+	}
+	b, err := l.Expand(seed)
+	if err != nil {
+		Broken("bad layout descriptor: %v", err)
+	}
+	return b, l.Free()
+}
+
 // Cat concatenates byte strings into a fresh slice with no spare capacity.
 func Cat(parts ...[]byte) []byte {
 	n := 0
@@ -427,7 +441,7 @@ func FirstDiff(a, b []byte) string { return firstDiff(a, b) }
 type Dk struct {
 	OK bool  `json:"ok"`
 	N  int   `json:"n"`
-	Re []int `json:"re"`
+	Re json.RawMessage `json:"re"` // layout descriptor
 }
 
 // Case is one case emitted by spec/amf0/Gen_Amf0.tla.
@@ -486,12 +500,9 @@ func (d *Dk) Matches(got Decoded) (bool, string) {
 	if err != nil {
 		return false, fmt.Sprintf("re-marshal failed: %v", err)
 	}
-	want := make([]byte, len(d.Re))
-	for i, x := range d.Re {
-		want[i] = byte(x)
-	}
-	if !bytes.Equal(re, want) {
-		return false, "the library's value differs from what a StrictKeyed decoder would hold: " + firstDiff(re, want)
+	want, free := MustLDFree(d.Re, 0)
+	if df := ld.DiffFree(re, want, free); df != "" {
+		return false, "the library's value differs from what a StrictKeyed decoder would hold: " + df
 	}
 	return true, ""
 }
